@@ -14,7 +14,7 @@
 From Coq Require Import String List Bool Arith ZArith.
 From V Require Import Model.Universe Model.Group Model.DataId Model.DataIdX Model.DataIdCheck Gen.Universes
   Proofs.GroupProofs Proofs.DataIdProofs Proofs.DataIdProofsExpand Proofs.DataIdProofsShipped Proofs.DataIdProofsErrors Proofs.DataIdProofsUnion
-  Proofs.DataIdProofsX Proofs.DataIdProofsX2 Proofs.DataIdProofsX3 Proofs.DataIdProofsOldA Proofs.DataIdProofsX4 Proofs.DataIdProofsX5.
+  Proofs.DataIdProofsX Proofs.DataIdProofsX2 Proofs.DataIdProofsX3 Proofs.DataIdProofsOldA Proofs.DataIdProofsX4 Proofs.DataIdProofsX5 Proofs.DataIdProofsX6.
 Import ListNotations.
 Open Scope string_scope.
 Open Scope list_scope.
@@ -498,28 +498,9 @@ Example alternate_key_examples :
      = RWErr RWInconsistent.
 Proof. exact ex_altkey_p. Qed.
 
-(* ---- expandDataId(DataCoordinate, ...): "only documented failures" is FALSE (finding F-C13-expand-dc-keyerror): a
-        DataCoordinate without a value for a dimension requested through dimensions= gives subset's bare KeyError, where
-        the same request spelled with a dict gives DimensionNameError ---- *)
-Theorem expand_dc_errors_documented_refuted :
-  exists d e, standardize u_current None [("instrument", VStr "Cam")] [] [] = Ok d /\
-    expand_data_id_dc_x u_current ex_db [] (Some ["detector"]) d [] [] = Err e /\ documented e = false /\
-    expand_data_id_x u_current ex_db [] (Some ["detector"]) [("instrument", VStr "Cam")] [] [] = Err EDimensionName.
-Proof. exact expand_dc_keyerror_refuted_p. Qed.
-Print Assumptions expand_dc_errors_documented_refuted.
 
-(* ---- expandDataId(expanded DataCoordinate, **keywords): "records equal to the stored ones" is FALSE when a keyword overrides a
-        key value (finding F-C13-expand-dc-stale-carried-records): the records carried by the argument are reused for the
-        new key.  Witness: visit 5 expanded, then visit=7: the result says visit 7 with visit 5's filter; the stored visit 7 has
-        pf2, and the same values given as a mapping are refused as inconsistent ---- *)
-Theorem expand_dc_carried_records_refuted :
-  exists a d, expand_data_id_x u_current ex_db2 [] None [("instrument", VStr "Cam"); ("visit", VInt 5)] [] [] = Ok a /\
-    expand_data_id_dc_x u_current ex_db2 [] None a [("visit", VInt 7)] [] = Ok d /\
-    dc_get d "visit" = Some (VInt 7) /\ dc_get d "physical_filter" = Some (VStr "pf1") /\
-    rows ex_db2 "visit" = [mkRecord [VStr "Cam"; VInt 5] [VInt 20240101; VStr "pf1"]; mkRecord [VStr "Cam"; VInt 7] [VInt 20240101; VStr "pf2"]] /\
-    expand_data_id_x u_current ex_db2 [] None (dmapping d) [] [] = Err EInconsistent.
-Proof. exact expand_dc_carried_records_refuted_p. Qed.
-Print Assumptions expand_dc_carried_records_refuted.
+
+
 
 (* ---- union with ATTACHED RECORDS (any of the three classes on either side) ---- *)
 Theorem union_values_any : forall u la lb a b c, wf_universe u = true ->
@@ -544,3 +525,89 @@ Theorem expand_records_sound_stored : forall u D G given k0 k1 recs,
   extends k1 k0 /\ glookup G = GOk (map fst recs) /\ consistent u D G k1 recs.
 Proof. exact expand_keys_r_sound_stored_p. Qed.
 Print Assumptions expand_records_sound_stored.
+
+(* ======================================================================================================================
+   Unions of data IDs with records; DataCoordinate arguments of expandDataId after /repo 822ddb5 and b51cefc.
+     wf_dataid u d           d's group is a group of u, d holds its required values, and is full if it has records
+     standardize_dc2         standardize(DataCoordinate, ...) after 822ddb5 (subset's KeyError -> DimensionNameError)
+     carried_ok d s          all(standardized.mapping.get(k, v) == v for k, v in dataId.mapping.items())     (b51cefc)
+     expand_data_id_dc2      expandDataId(DataCoordinate, dimensions=, records=, **kw) as repaired (`_x2`: code-exact fetch key)
+     expand_data_id_dc_x     the same BEFORE the two repairs (kept for the witnesses)
+   ====================================================================================================================== *)
+
+(* a union may claim hasRecords() only if it has a record for EVERY ELEMENT of its group (and is full): recs_cover is preserved
+   (seed C13b replaced `elements` by `names` in that test) *)
+Theorem union_claims_records_only_if_complete : forall u la lb a b c, wf_universe u = true ->
+  mkgroup u la = GOk (dgroup a) -> mkgroup u lb = GOk (dgroup b) -> recs_cover a -> recs_cover b ->
+  union u a b = Ok c -> recs_cover c.
+Proof. exact union_recs_cover_p. Qed.
+Print Assumptions union_claims_records_only_if_complete.
+
+(* WHICH records the union of two expanded data IDs carries *)
+Theorem union_records_carried : forall u a b c ra rb, drecs a = Some ra -> drecs b = Some rb -> union u a b = Ok c ->
+  c = a \/ c = b \/ has_recs c = false \/ c = make_empty (dgroup c) \/
+  exists rc, drecs c = Some rc /\ forall e, aget rc e =
+    match (if memb e (gelements (dgroup b)) then aget rb e else None) with
+    | Some x => Some x
+    | None => if memb e (gelements (dgroup a)) then aget ra e else None
+    end.
+Proof. exact union_records_carried_p. Qed.
+Print Assumptions union_records_carried.
+
+(* expandDataId(DataCoordinate, ...): ONLY DOCUMENTED FAILURES (positive since 822ddb5) *)
+Theorem expand_dc_errors_documented : forall u D given dims d kw df e, wf_universe u = true -> wf_dataid u d ->
+  (forall s, standardize_dc2 u dims d kw df = Ok s -> lookup_okb u (dgroup s) = true) ->
+  expand_data_id_dc2 u D given dims d kw df = Err e -> documented e = true.
+Proof. exact expand_dc_err_p. Qed.
+Print Assumptions expand_dc_errors_documented.
+
+Theorem standardize_dc_errors_documented : forall u dims d kw df e, wf_universe u = true -> wf_dataid u d ->
+  standardize_dc2 u dims d kw df = Err e -> e = EDimensionName.
+Proof. exact standardize_dc2_err. Qed.
+Print Assumptions standardize_dc_errors_documented.
+
+Theorem expand_dc_errors_documented_refuted_without_fix :
+  exists d e, standardize u_current None [("instrument", VStr "Cam")] [] [] = Ok d /\
+    expand_data_id_dc_x u_current ex_db [] (Some ["detector"]) d [] [] = Err e /\ documented e = false /\
+    expand_data_id_dc_x2 u_current ex_db [] (Some ["detector"]) d [] [] = Err EDimensionName.
+Proof. exact expand_dc_keyerror_refuted_without_fix_p. Qed.
+Print Assumptions expand_dc_errors_documented_refuted_without_fix.
+
+(* expandDataId(DataCoordinate, ...): SOUND when the argument is a sound expansion and the standardized data ID keeps every value
+   of the argument: every attached record, carried or fetched, is the stored row under the final values *)
+Theorem expand_dc_sound : forall u D d s k1 recs,
+  consistent u D (dgroup d) (dmapping d) (carried_records d) ->
+  (forall k v, dc_get d k = Some v -> dc_get s k = Some v) ->
+  expand_keys_r u D (dgroup s) (carried_records2 d s) (dmapping s) = Ok (k1, recs) ->
+  extends k1 (dmapping s) /\ glookup (dgroup s) = GOk (map fst recs) /\ consistent u D (dgroup s) k1 recs.
+Proof. exact expand_dc_sound_p. Qed.
+Print Assumptions expand_dc_sound.
+
+(* b51cefc: a keyword that overrides a value of the argument => the carried records are not used at all *)
+Theorem expand_dc_override_refetches : forall u D given dims d kw df s,
+  standardize_dc2 u dims d kw df = Ok s -> carried_ok d s = false ->
+  expand_data_id_dc2 u D given dims d kw df = expand_r u D given s.
+Proof. exact expand_dc_override_refetches_p. Qed.
+Print Assumptions expand_dc_override_refetches.
+
+Theorem expand_dc_carried_records_refuted_without_fix :
+  exists a d, expand_data_id_x u_current ex_db2 [] None [("instrument", VStr "Cam"); ("visit", VInt 5)] [] [] = Ok a /\
+    expand_data_id_dc_x u_current ex_db2 [] None a [("visit", VInt 7)] [] = Ok d /\
+    dc_get d "visit" = Some (VInt 7) /\ dc_get d "physical_filter" = Some (VStr "pf1") /\
+    expand_data_id_x u_current ex_db2 [] None (dmapping d) [] [] = Err EInconsistent /\
+    expand_data_id_dc_x2 u_current ex_db2 [] None a [("visit", VInt 7)] [] = Err EInconsistent.
+Proof. exact expand_dc_carried_records_refuted_without_fix_p. Qed.
+Print Assumptions expand_dc_carried_records_refuted_without_fix.
+
+(* ... but expand_dc_sound's second hypothesis cannot be dropped, also after b51cefc (finding
+   F-C13-expand-dc-carried-record-of-dropped-value): expanded {Cam, pf1} with visit=7 (stored filter pf2, band r) returns
+   physical_filter pf2 with band g; the same values as a mapping give band r *)
+Theorem expand_dc_carried_records_residual_refuted :
+  exists p d d', expand_data_id_x u_current ex_db2 [] None [("instrument", VStr "Cam"); ("physical_filter", VStr "pf1")] [] [] = Ok p /\
+    expand_data_id_dc_x2 u_current ex_db2 [] None p [("visit", VInt 7)] [] = Ok d /\
+    dc_get d "physical_filter" = Some (VStr "pf2") /\ dc_get d "band" = Some (VStr "g") /\
+    expand_data_id_x u_current ex_db2 [] None
+      [("instrument", VStr "Cam"); ("physical_filter", VStr "pf1"); ("band", VStr "g"); ("visit", VInt 7)] [] [] = Ok d' /\
+    dc_get d' "physical_filter" = Some (VStr "pf2") /\ dc_get d' "band" = Some (VStr "r").
+Proof. exact expand_dc_carried_records_residual_refuted_p. Qed.
+Print Assumptions expand_dc_carried_records_residual_refuted.
